@@ -140,9 +140,22 @@ type MapOrderLeak struct {
 // loopBlocks: blocks of the natural loop headed at h (dominated by h and able to reach h).
 func loopBlocks(h *ssa.BasicBlock) map[*ssa.BasicBlock]bool {
 	out := map[*ssa.BasicBlock]bool{h: true}
-	for _, b := range h.Parent().Blocks {
-		if b != h && dominates(h, b) && Reaches(b, h) {
-			out[b] = true
+	// natural loop: for every back edge b→h, the nodes that reach b without passing h
+	var stack []*ssa.BasicBlock
+	for _, p := range h.Preds {
+		if dominates(h, p) && !out[p] {
+			out[p] = true
+			stack = append(stack, p)
+		}
+	}
+	for len(stack) > 0 {
+		b := stack[len(stack)-1]
+		stack = stack[:len(stack)-1]
+		for _, p := range b.Preds {
+			if !out[p] && dominates(h, p) {
+				out[p] = true
+				stack = append(stack, p)
+			}
 		}
 	}
 	return out
